@@ -4,6 +4,7 @@
 import Nuts.Model.Tx
 import NutsProofs.Props.C10
 import NutsProofs.Lemmas.ReopenObs
+import NutsProofs.Lemmas.ReopenAll
 namespace NutsProofs.C08
 open Nuts Nuts.Model Nuts.Model.DB NutsProofs
 
@@ -73,5 +74,66 @@ theorem C08_witness_rotates :
     (([Reopen.Op.commit (wTx 1 1), .commit (wTx 2 2), .reopen { seg := 100 }, .commit (wTx 3 1)].foldl Reopen.stepOp
       (openDB { seg := 100 } []).1).files.map (·.fid)) = [0, 1, 2] := by
   decide +kernel
+
+/-! ### a clean reopen, for every structure
+
+`ReopenAll.AllInv` extends the invariant to logs with list, set and sorted-set records: besides the key/value
+part, the lists, sets and sorted sets of the state are the fold of the appliers over the log, and no
+application along the log panics. `Commit` applies a transaction's structure records after its write loop,
+`Open` applies them while it replays the log; the appliers read and write nothing but the structure maps
+(`applyOther_eq`), the status byte does not matter to them, and on sorted-set keys of the form `key|score` the
+applier of `Commit` and the applier of `Open` agree (`stepSV_flag`) — so both build the same thing. -/
+
+open NutsProofs.Reopen NutsProofs.ReopenAll in
+/-- **C08 (all structures, key+value mode).** Take any history of write transactions with records of any of
+the four structures — puts, deletes, pushes, pops, `LRem`, `LSet`, `LTrim`, `SAdd`, `SRem`, `ZAdd`, `ZRem`,
+`ZRemRangeByRank`, `ZPopMax`, `ZPopMin`, in any mix, any number per transaction, over any buckets, with any
+segment size — each of which committed successfully, and reopens in between. Then `Open` (key+value mode) on
+the final files succeeds, leaves the files as they are, and rebuilds exactly the lists, the sets and the
+sorted sets the database held, the key/value index up to the status byte of the cached records, and the
+same committed transaction ids; every read of a list, set or sorted set is a function of those maps alone, so
+it returns what it returned before. (Sorted-set keys must have the form `key|score`: the API writes no
+other; for others the two appliers differ.) -/
+theorem C08_reopen_preserves_all_structures (opt0 : Opts) (ops : List OpA) (hok : OpsOkA (openDB opt0 []).1 ops)
+    (opt : Opts) (hm : opt.mode = 0) :
+    let s := ops.foldl stepA (openDB opt0 []).1
+    let s' := (openDB opt s.files).1
+    (openDB opt s.files).2 = .ok () ∧ s'.files = s.files ∧
+    s'.lists = s.lists ∧ s'.sets = s.sets ∧ s'.zsets = s.zsets ∧ s'.kv = normKV s.kv ∧
+    (∀ id, id ∈ s'.committed ↔ id ∈ s.committed) := by
+  intro s s'
+  have hinv : AllInv s := allInv_ops ops _ (allInv_init opt0) hok
+  obtain ⟨h1, h2, h3, h4, h5⟩ := open_rebuilds_all s hinv opt hm
+  have hl : s'.lists = s.lists := congrArg SV.lists h3
+  have hs : s'.sets = s.sets := congrArg SV.sets h3
+  have hz : s'.zsets = s.zsets := congrArg SV.zsets h3
+  exact ⟨h1, h4, hl, hs, hz, h2, h5⟩
+
+/-- records for the witness below -/
+def wRec (id : Nat) (b k v : Bytes) (flag ds : Nat) : Rec := { (mkRec b k v flag ds) with txid := id }
+
+open NutsProofs.Reopen NutsProofs.ReopenAll in
+/-- the hypotheses are met by a history that uses all four structures, rotates (100-byte segments) and
+reopens in the middle: a put, two pushes and a pop, two set insertions and a removal, a sorted-set insertion -/
+theorem C08_witness_all_structures :
+    let ops := [OpA.commit [wRec 1 [97] [107] [120] flagSet dsKV, wRec 1 [108] [113] [49] flagRPush dsList],
+                .commit [wRec 2 [108] [113] [50] flagRPush dsList, wRec 2 [115] [116] [121] flagSet dsSet],
+                .reopen { seg := 100 },
+                .commit [wRec 3 [108] [113] [] flagLPop dsList, wRec 3 [115] [116] [122] flagSet dsSet,
+                         wRec 3 [115] [116] [121] flagDelete dsSet],
+                .commit [{ (wRec 4 [122] [109, 124, 49] [118] flagZAdd dsZSet) with score := 1 }]]
+    OpsOkA (openDB { seg := 100 } []).1 ops ∧
+    ((ops.foldl stepA (openDB { seg := 100 } []).1).files.map (·.fid)).length ≥ 3 ∧
+    (ops.foldl stepA (openDB { seg := 100 } []).1).lists = [([108], [([113], [[50]])])] := by
+  intro ops
+  refine ⟨⟨⟨by simp, 1, ?_⟩, by decide +kernel, ⟨by simp, 2, ?_⟩, by decide +kernel, rfl,
+    ⟨by simp, 3, ?_⟩, by decide +kernel, ⟨by simp, 4, ?_⟩, by decide +kernel, trivial⟩, by decide +kernel, by decide +kernel⟩
+  all_goals
+    intro r hr
+    simp only [List.mem_cons, List.mem_nil_iff, or_false] at hr
+    rcases hr with rfl | rfl | rfl <;>
+      first
+        | exact ⟨by decide +kernel, rfl, fun hd => absurd hd (by decide +kernel)⟩
+        | exact ⟨by decide +kernel, rfl, fun _ _ => ⟨[109], [49], by decide +kernel⟩⟩
 
 end NutsProofs.C08
